@@ -24,19 +24,20 @@ Record bcfg := mkCfg {
   c_first_forced : nat;                             (* first entry of the new map is overwritten with this *)
   c_first_sel : string; c_rest_sel : string;        (* add_replace: first byte -> map[what.<sel>], others -> map[what.<sel>] *)
   c_rest_from : nat;                                (* for _ in <from>..with.len() *)
-  c_b2c_inc : nat; c_ob2c_inc : nat                 (* sentinels last_chidx + inc, max + inc *)
+  c_b2c_inc : nat;                                  (* mod_b2c sentinel last_chidx + inc *)
+  c_ob2c_init : nat; c_ob2c_inc : nat               (* fill_orig_b2c: count = init; count = ch_idx + inc; sentinel = count *)
 }.
 
 Definition the_cfg : bcfg :=
   mkCfg BF.start_build_cmp BF.start_build_limit BF.ident_from BF.ident_extra BF.commit_cmp BF.commit_limit
         BF.resolve_cmp BF.resolve_limit BF.first_forced BF.repl_first_sel BF.repl_rest_sel BF.repl_rest_from
-        BF.b2c_sentinel_inc BF.orig_b2c_sentinel_inc.
+        BF.b2c_sentinel_inc BF.orig_b2c_count_init BF.orig_b2c_count_inc.
 
 (* the values the theorems need (guards may be anything: a rejected input produces no offset map at all) *)
 Definition cfg_ok (c : bcfg) : bool :=
   Nat.eqb (c_ident_from c) 0 && Nat.eqb (c_ident_extra c) 1 && Nat.eqb (c_first_forced c) 0 &&
   String.eqb (c_first_sel c) "start" && String.eqb (c_rest_sel c) "end" && Nat.eqb (c_rest_from c) 1 &&
-  Nat.eqb (c_b2c_inc c) 1 && Nat.eqb (c_ob2c_inc c) 1.
+  Nat.eqb (c_b2c_inc c) 1 && Nat.eqb (c_ob2c_init c) 0 && Nat.eqb (c_ob2c_inc c) 1.
 
 Definition cmp_eval (op : string) (a b : Z) : bool :=
   if String.eqb op ">" then Z.ltb b a
@@ -182,13 +183,14 @@ Fixpoint b2c_scan (t : list N) (cnt : nat) : list nat :=
 (* sentinel: last_chidx + 1 (last_chidx stays 0 for the empty text) *)
 Definition mod_b2c (t : list N) : list nat := b2c_scan t 0 ++ [(count_leads t - 1) + c_b2c_inc cfg].
 
-(* fill_orig_b2c: usize::MAX (None) off boundaries, char index on boundaries, max + 1 at the end *)
+(* fill_orig_b2c: usize::MAX (None) off boundaries, char index on boundaries, the number of code points at the end *)
 Fixpoint ob2c_scan (t : list N) (cnt : nat) : list (option nat) :=
   match t with
   | [] => []
   | b :: t' => if is_lead b then Some cnt :: ob2c_scan t' (S cnt) else None :: ob2c_scan t' cnt
   end.
-Definition orig_b2c (t : list N) : list (option nat) := ob2c_scan t 0 ++ [Some ((count_leads t - 1) + c_ob2c_inc cfg)].
+Definition orig_b2c (t : list N) : list (option nat) :=
+  ob2c_scan t 0 ++ [Some (match count_leads t with 0 => c_ob2c_init cfg | S k => k + c_ob2c_inc cfg end)].
 
 (* ------------------------------------------------------------------ accessors (None = panic) *)
 Definition to_orig_byte_idx (s : buf) (ci : nat) : option nat :=
